@@ -220,3 +220,32 @@ def sphere_cylinder_contracts():
         c[k] = dict(CONTRACTS[k], assumed=True, assigns=['con[*]'])
     c['mjc_SphereCylinder'] = SPHERE_CYLINDER
     return c
+
+
+# mjc_SphereCapsule wrapper (g1 sphere, g2 capsule), in terms of the model / data arrays
+_V = lambda k: '(d.geom_xpos[3*g1 + %d] - d.geom_xpos[3*g2 + %d])' % (k, k)
+WSC_DEFS = {
+    'CAX': 'lambda k: d.geom_xmat[9*g2 + 2 + 3*k]', 'CLEN': 'm.geom_size[3*g2 + 1]',
+    'CPRJ': 'CAX(0)*%s + CAX(1)*%s + CAX(2)*%s' % (_V(0), _V(1), _V(2)),
+    'CXP': '(-CLEN if CPRJ < -CLEN else (CLEN if CPRJ > CLEN else CPRJ))',
+    'CSQ': 'lambda t: ' + ' + '.join('(%s - t*CAX(%d))*(%s - t*CAX(%d))' % (_V(k), k, _V(k), k) for k in range(3)),
+    'CRR': 'm.geom_size[3*g1] + m.geom_size[3*g2]',
+}
+WRAPPERS['mjc_SphereCapsule'] = {
+    'params': _WP, 'defs': WSC_DEFS,
+    'requires': {'geoms': _WG, 'unit_axis': 'CAX(0)*CAX(0) + CAX(1)*CAX(1) + CAX(2)*CAX(2) == 1', 'capsule': 'CLEN >= 0',
+                 'radii': 'm.geom_size[3*g1] >= 0 and m.geom_size[3*g2] >= 0', 'reach': 'margin + CRR >= 0'},
+    'ensures': {'zero_or_one': 'result == 0 or result == 1',
+                'reported_iff_the_axis_segment_is_within_reach': '(result == 1) == (CSQ(CXP) <= (margin + CRR) * (margin + CRR))',
+                'dist_is_the_gap_between_the_two_surfaces': 'implies(result == 1, (con.dist + CRR) * (con.dist + CRR) == CSQ(CXP) and con.dist + CRR >= 0)'},
+    'no_error': True}
+_old_wrapper_contracts = wrapper_contracts
+
+
+def wrapper_contracts():
+    c = _old_wrapper_contracts()
+    sc = dict(CONTRACTS['mjraw_SphereCapsule'], assumed=True, assigns=['con[*]'])
+    sc['ensures'] = {k: v for k, v in sc['ensures'].items() if 'forall' not in v}       # callers need the ground clauses only
+    c['mjraw_SphereCapsule'] = sc
+    c.update(WRAPPERS)
+    return c
